@@ -9,7 +9,7 @@ RULE = ('cases: (a) exhaustive: every connected graph of the networkx atlas up t
         'bond-order assignments (all assignments over {0,1,2} when |E| <= 6 (quick) / 8 (thorough), otherwise '
         'uniform + one-hot assignments over {0,2,3,4}) x 2 relabelings (identity, reversed+offset keys) x 2 name '
         'patterns; (b) Hypothesis: random trees / cyclic graphs up to 25 nodes (15 % dense graphs of 6-11 nodes with >= 10 simultaneously open ring bonds), orders 0-4, arbitrary integer or '
-        'string keys, shuffled insertion order. Oracle: read_cgsmiles(write_cgsmiles_graph(G)) succeeds and is '
+        'string keys, shuffled insertion order; 10 % with numpy integer orders; 0.4 % linear chains of 1050-1600 nodes. Oracle: read_cgsmiles(write_cgsmiles_graph(G)) succeeds and is '
         'isomorphic to G on fragname and order. classes record whether a non-single order sits on a chain edge, '
         'a branch edge or a ring-closing edge of the writer\'s DFS. non-trivial = >=3 nodes and (a cycle or a '
         'branch or a non-single order); distinct = graph (nodes, names, edges, orders)')
@@ -58,7 +58,20 @@ def enumerate_cases(tier):
                     yield make_case(nodes, edges, {'enumerated'})
 
 
+def gen_long_chain(R):
+    """a polymer-sized linear chain (1050-1600 nodes): deeper than the interpreter's recursion limit"""
+    n = R.randint(1050, 1600)
+    pool = R.choice([['A'], ['PEO', 'PMA'], ['A', 'B', 'C']])
+    orders = R.choice([(1,), (1, 1, 1, 2), (0, 1, 2, 3, 4)])
+    off = R.choice([0, 0, 5])
+    nodes = [[off + i, R.choice(pool)] for i in range(n)]
+    edges = [[off + i, off + i + 1, R.choice(orders)] for i in range(n - 1)]
+    return make_case(nodes, edges, {'random', 'long_chain_1000+'})
+
+
 def gen(R, tier):
+    if R.chance(0.004):
+        return gen_long_chain(R)
     n = R.choice([R.randint(1, 4), R.randint(4, 9), R.randint(8, 25)])
     parents = [R.randrange(i) if not R.chance(0.5) else i - 1 for i in range(1, n)]
     edges = {}
@@ -97,15 +110,23 @@ def gen(R, tier):
     el = [[keys[a], keys[b], o] for (a, b), o in edges.items()]
     if R.chance(0.5):
         R.shuffle(el)
-    return make_case(nodes, el, {'random', 'keys:' + keykind} | ({'dense'} if dense else set()))
+    case = make_case(nodes, el, {'random', 'keys:' + keykind} | ({'dense'} if dense else set()))
+    if R.chance(0.1):
+        # bond orders taken from a numpy array (np.int64 scalars)
+        case['input']['np_orders'] = True
+        case['features'] = sorted(set(case['features']) | {'numpy_integer_orders'})
+    return case
 
 
 def build(case):
     g = nx.Graph()
     for k, name in case['input']['nodes']:
         g.add_node(k, fragname=name)
+    np_orders = case['input'].get('np_orders')
+    if np_orders:
+        import numpy as np
     for a, b, o in case['input']['edges']:
-        g.add_edge(a, b, order=o)
+        g.add_edge(a, b, order=np.int64(o) if np_orders else o)
     return g
 
 
@@ -151,6 +172,11 @@ def oracle(case):
     from cgsmiles import read_cgsmiles
     from cgsmiles.write_cgsmiles import write_cgsmiles_graph
     g = build(case)
+    if len(g) > 300:
+        from ..runner import user_recursion_limit
+        with user_recursion_limit():
+            s = sut(write_cgsmiles_graph, g)
+            sut(read_cgsmiles, s)
     s = sut(write_cgsmiles_graph, g)
     expect(isinstance(s, str) and s.startswith('{') and s.endswith('}'), 'write:format', lambda: 'writer returned %r' % (s,))
     try:
@@ -160,9 +186,8 @@ def oracle(case):
             e.sig = 'reader-rejects-written-string:' + e.sig
             e.msg = 'written %s :: %s' % (s, e.msg)
         raise
-    ok = (g.number_of_nodes() == h.number_of_nodes() and g.number_of_edges() == h.number_of_edges() and
-          nx.is_isomorphic(g, h, node_match=lambda x, y: x['fragname'] == y['fragname'],
-                           edge_match=lambda x, y: x['order'] == y['order']))
+    from ..invariants import iso
+    ok = iso(g, h, lambda x, y: x['fragname'] == y['fragname'], lambda x, y: x['order'] == y['order'])
     expect(ok, 'roundtrip:not-isomorphic',
            lambda: 'written %s reads back as nodes=%r edges=%r' % (
                s, [d['fragname'] for _, d in h.nodes(data=True)], sorted(h.edges(data='order'))))
